@@ -29,7 +29,8 @@ REQUIRED_COUNTERS = {"tasks_compared": {"quick": 2000, "thorough": 40000},
                      "pingpong_falsy_callable": {"quick": 4, "thorough": 12},
                      "pingpong_abandon_on_cancel": {"quick": 4, "thorough": 12},
                      "pingpong_abandon_mixed": {"quick": 4, "thorough": 12},
-                     "deep_task_cases": {"quick": 2, "thorough": 2}}
+                     "deep_task_cases": {"quick": 2, "thorough": 2},
+                     "first_use_cases": {"quick": 7, "thorough": 7}}
 SHARD_TIMEOUT = {"quick": 400, "thorough": 5400}
 
 
@@ -41,10 +42,150 @@ def plan(tier, seed):
                        "budget_s": 45 if tier == "quick" else 1500})
     shards.append({"interp": "3.12", "leg": "pingpong", "seed": seed, "max_depth": 4 if tier == "quick" else 7,
                    "reps": 4 if tier == "quick" else 8})
+    for v in FIRST_USE_VARIANTS:
+        shards.append({"interp": "3.12", "leg": "first_use", "variant": v, "seed": seed})
     return shards
 
 
+FIRST_USE_VARIANTS = ["instrument_before_io_wait", "instrument_after_io_wait", "run_sync_soon", "worker_thread", "task",
+                      "outside_run", "trio_imported_first"]
+
+
+def first_use(spec):
+    """History: *where* the process was when stackscope first met Trio (its Trio glue is installed once, at the first
+    extraction after trio is importable - or at import time if trio came first).  Fresh process per variant; after
+    that first look, a task tree with a nursery and a thread hop is judged against Trio's own bookkeeping."""
+    import threading
+    import warnings
+    from vlib.worker import Result
+    res = Result()
+    interp = "%d.%d" % sys.version_info[:2]
+    variant = spec["variant"]
+    if "trio" in sys.modules or "stackscope" in sys.modules:
+        res.inconclusive.append({"reason": "trio or stackscope already imported before the first-use leg started"})
+        return res
+    if variant == "trio_imported_first":
+        import trio
+        import stackscope
+    else:
+        import stackscope
+        import trio
+    import trio.testing
+    import trio.lowlevel
+    import trio.abc
+    caught = []
+    looked = []
+
+    def first_look():
+        if looked:
+            return
+        looked.append(variant)
+        with warnings.catch_warnings(record=True) as w:
+            warnings.simplefilter("always")
+            stackscope.extract(0)
+        caught.extend(w)
+
+    class Inst(trio.abc.Instrument):
+        def before_io_wait(self, timeout):
+            if variant == "instrument_before_io_wait":
+                first_look()
+
+        def after_io_wait(self, timeout):
+            if variant == "instrument_after_io_wait":
+                first_look()
+
+    release = threading.Event()
+    entered = threading.Event()
+
+    def blocker():
+        entered.set()
+        release.wait(20)
+
+    async def sleeper():
+        await trio.sleep_forever()
+
+    async def root_task():
+        async with trio.open_nursery() as nursery:
+            nursery.start_soon(sleeper, name="kid-a")
+            nursery.start_soon(sleeper, name="kid-b")
+            await trio.sleep_forever()
+
+    async def hop_task():
+        await trio.to_thread.run_sync(blocker)
+
+    problems = []
+
+    async def main():
+        if variant in ("instrument_before_io_wait", "instrument_after_io_wait"):
+            await trio.sleep(0.05)      # the loop goes idle: the instrument fires with no task running
+        elif variant == "run_sync_soon":
+            trio.lowlevel.current_trio_token().run_sync_soon(first_look)
+            await trio.sleep(0.05)
+        elif variant == "worker_thread":
+            await trio.to_thread.run_sync(first_look)
+        elif variant == "task":
+            first_look()
+        if variant not in ("outside_run", "trio_imported_first") and not looked:
+            problems.append("harness: the first look did not happen where planned")
+        async with trio.open_nursery() as top:
+            top.start_soon(root_task, name="ROOT")
+            top.start_soon(hop_task, name="HOP")
+            await trio.testing.wait_all_tasks_blocked()
+            for _ in range(200):
+                if entered.is_set():
+                    break
+                await trio.sleep(0.01)
+            tasks = dict((t.name, t) for t in top.child_tasks)
+            with warnings.catch_warnings(record=True) as w:
+                warnings.simplefilter("always")
+                st = stackscope.extract(tasks["ROOT"], recurse_child_tasks=True)
+                hop = stackscope.extract(tasks["HOP"], recurse_child_tasks=True)
+            caught.extend(w)
+            res.evaluations += 2
+            nurs = [c for f in st.frames for c in f.contexts if isinstance(c.obj, trio.Nursery)]
+            if st.error is not None or hop.error is not None:
+                problems.append("errors: %r / %r" % (st.error, hop.error))
+            if len(nurs) != 1:
+                problems.append("ROOT: %d contexts whose obj is a trio.Nursery (contexts: %r)" % (
+                    len(nurs), [type(c.obj).__name__ for f in st.frames for c in f.contexts]))
+            else:
+                kids = nurs[0].children
+                want = sorted(t.name for t in nurs[0].obj.child_tasks)
+                got = sorted(getattr(k.root, "name", repr(k.root)) for k in kids)
+                if got != want or want != ["kid-a", "kid-b"]:
+                    problems.append("ROOT nursery children %r, Trio says %r" % (got, want))
+                elif not all(k.frames and k.frames[-1].pyframe.f_code.co_name for k in kids):
+                    problems.append("child stacks without frames")
+                else:
+                    res.nontrivial(interp, variant, "nursery")
+            if blocker.__code__ not in [f.pyframe.f_code for f in hop.frames]:
+                problems.append("HOP: the to_thread.run_sync hop is not followed into the worker thread: frames %r" % (
+                    [f.funcname for f in hop.frames],))
+            else:
+                res.nontrivial(interp, variant, "hop")
+            release.set()
+            top.cancel_scope.cancel()
+
+    if variant == "outside_run":
+        first_look()
+    try:
+        trio.run(main, instruments=[Inst()])
+    finally:
+        release.set()
+    res.count("first_use_cases")
+    res.count("first_use_" + variant)
+    glue_w = [str(x.message)[:200] for x in caught if "glue" in str(x.message).lower()]
+    if glue_w:
+        problems.append("glue installation warned: %s" % glue_w[0])
+    if problems:
+        res.violation(kind="trio glue depends on where stackscope first met Trio", first_use=variant,
+                      problems=problems[:4], interp=interp)
+    return res
+
+
 def worker(spec):
+    if spec["leg"] == "first_use":
+        return first_use(spec)
     import random
     import threading
     import warnings
